@@ -32,7 +32,7 @@ pub fn run_sc_check(id: &str, tier: &str, seed: u64) -> i32 {
     let t0 = std::time::Instant::now();
     let judge = sc::Judge::only(id);
     let (n, max_plies): (u64, usize) = match (id, tier) {
-        ("C13", "quick") => (8_000, 50),
+        ("C13", "quick") => (6_000, 50),
         ("C13", _) => (120_000, 60),
         ("C04", "quick") => (40_000, 60),
         ("C04", _) => (600_000, 200),
@@ -205,7 +205,7 @@ pub fn run_sb_check(id: &str, tier: &str, seed: u64) -> i32 {
             (a, n2 + n3 + n4)
         }
         "C12" => {
-            let n = if quick { 700 } else { 20_000 };
+            let n = if quick { 600 } else { 20_000 };
             let a = report::par_acc(n, |r| sb_checks::run_c12(seed, r));
             // coverage guard: the property is only decided where the engine completes the depth
             let d3 = a.counters.get("c12_depth_3_judged").copied().unwrap_or(0);
@@ -218,7 +218,7 @@ pub fn run_sb_check(id: &str, tier: &str, seed: u64) -> i32 {
         "C11" => {
             // thorough: searches to depth 5 (null-move pruning active from iteration 4) and
             // verifies claims up to mate in 4
-            let n = if quick { 100_000 } else { 500_000 };
+            let n = if quick { 70_000 } else { 500_000 };
             let bound = if quick { 3 } else { 4 };
             (report::par_acc(n, |r| sb_checks::run_c11(seed, r, bound)), n)
         }
